@@ -363,6 +363,23 @@ func (fr *frame) eval1(v ssa.Value) Val {
 	case *ssa.Index:
 		base := fr.eval(x.X)
 		idx := fr.eval(x.Index)
+		if base.K == KAgg && idx.K == KInt && idx.I.IsInt64() {
+			// an element of an array value
+			suffix := fmt.Sprintf("[%d]", idx.I.Int64())
+			if isAggregate(x.Type()) {
+				sub := map[string]cell{}
+				for k, c := range base.Agg {
+					if under(k, suffix) {
+						sub[k[len(suffix):]] = c
+					}
+				}
+				return Val{K: KAgg, S: base.S + suffix, Agg: sub}
+			}
+			if c, ok := base.Agg[suffix]; ok && !c.Maybe {
+				return c.V
+			}
+			return fr.load(base.S+suffix, x.Type())
+		}
 		if base.K == KStr && idx.K == KInt && idx.I.IsInt64() {
 			i := idx.I.Int64()
 			if i >= 0 && int(i) < len(base.S) {
